@@ -424,3 +424,17 @@ Theorem c17_code_analyze : forall a wanted skip,
   = lift_info (analyze a wanted skip).
 Proof. exact gen_analyze_eq. Qed.
 Print Assumptions c17_code_analyze.
+
+(** "Nothing is emitted and the state is unchanged" includes the flag that remembers that the analysis ran: [Call::analyze_request]
+    (src/client/call.rs) is translated in "error-state mode" as well -- the values of its mutable fields at the point where it returns
+    an error -- and when the analysis fails they are the values it started with; the flag stays unset, so a retry analyses, and
+    fails, again (a flag set before the analysis succeeded would let the retry write a request that was never validated). *)
+From Hoot.proofs Require Import Gen2_equiv_call3.
+Theorem c17_code_failed_analysis_changes_nothing : forall c e,
+  c_analyzed c = false ->
+  analyze (c_req c) (c_writer c) (c_skip c) = Err e ->
+  gen_call_analyze_request_errst (c_analyzed c) (am_added (c_req c)) (c_writer c)
+                                 (lift_info3 (analyze (c_req c) (c_writer c) (c_skip c))) (host_of_call c)
+  = Some (false, am_added (c_req c), c_writer c).
+Proof. exact gen_call_analyze_request_errst_unchanged. Qed.
+Print Assumptions c17_code_failed_analysis_changes_nothing.
